@@ -147,16 +147,45 @@ class Body:
 
     # ---------------------------------------------------------------- taint
     def _collect_links(self):
-        for i in self.reach:
-            if i == self.EXIT:
-                continue
-            for st in self.blocks[i]["st"]:
-                if st["s"] != "assign":
+        """links[p] = locals that p may point into mutably.  Direct `&mut x` / `&raw mut x`; copies, casts and reborrows
+        of such pointers; and results of calls that received such a pointer (`as_mut_ptr`, `add`, `split_at_mut`, ...)."""
+        changed = True
+        while changed:
+            changed = False
+            for i in self.reach:
+                if i == self.EXIT:
                     continue
-                rv = st["rv"]
-                if rv["r"] in ("ref", "rawptr") and rv.get("mut", True):
-                    # only a mutable borrow lets a callee (or a store through it) write the referent
-                    self.links.setdefault(st["p"][0], set()).add(rv["p"][0])
+                for st in self.blocks[i]["st"]:
+                    if st["s"] != "assign":
+                        continue
+                    rv = st["rv"]
+                    dst = st["p"][0]
+                    new = set()
+                    if rv["r"] in ("ref", "rawptr") and rv.get("mut", True):
+                        base, proj = rv["p"]
+                        if "*" in [q for q in proj if isinstance(q, str)]:
+                            new |= self.links.get(base, set())      # reborrow through a pointer
+                        else:
+                            new.add(base)
+                    elif rv["r"] in ("use", "cast") and rv.get("a") and rv["a"][0] in ("c", "m"):
+                        new |= self.links.get(rv["a"][1][0], set())
+                    elif rv["r"] == "agg":
+                        for o in rv.get("ops", []):
+                            if o[0] in ("c", "m"):
+                                new |= self.links.get(o[1][0], set())
+                    if new - self.links.get(dst, set()):
+                        self.links.setdefault(dst, set()).update(new)
+                        changed = True
+                term = self.blocks[i]["term"]
+                if term["t"] == "call" and term.get("dest"):
+                    new = set()
+                    for a in term.get("args", []):
+                        if a[0] in ("c", "m"):
+                            new |= self.links.get(a[1][0], set())
+                    dst = term["dest"][0]
+                    if new - self.links.get(dst, set()):
+                        self.links.setdefault(dst, set()).update(new)
+                        changed = True
 
     def _place_taint(self, place):
         """taint of the value read from `place`: an element / field reached through the input slice is CONTENT"""
